@@ -208,7 +208,7 @@ def run(tier, seed):
     n0 = res.counts.get("executions", 0)
     faults = ["error", "error-after", "disconnect"]
     reps = rep_cases()
-    plan = [(reps[:10], 1, 0), (reps[:10:3] + reps[-3:], 0, 1), (reps[1:10:5], 1, 1)] if tier == "quick" else [(reps, 3, 0), (reps, 1, 2), (reps, 2, 1)]
+    plan = [(reps[:10], 1, 0), (reps[:10:3] + reps[-3:], 0, 1), (reps[1:10:5], 1, 1)] if tier == "quick" else [(reps, 2, 0), (reps, 1, 1), (reps[:10], 0, 2)]
     desc = []
     for sel, d, f in plan:
         sel = [dict(c, fault_kinds=faults if f else []) for c in sel]
